@@ -583,6 +583,9 @@ class Engine:
                     v = ite(i == k, coerce(items[k], srt), v, srt)
                 return v
             return (z3.IntVal(len(items)), get)
+        if isinstance(it, VConst) and isinstance(it.py, tuple) and it.py and it.py[0] == 'iterator':
+            _, n_, g_, pos = it.py      # the rest of a partly consumed iterator
+            return (z3.If(n_ > pos, n_ - pos, 0), lambda i: g_(pos + i))
         if isinstance(it, VConst) and isinstance(it.py, tuple) and it.py and it.py[0] == 'enumerate':
             n, g = self.as_sequence(it.py[1], st)
             start = it.py[2]
@@ -707,6 +710,8 @@ class Engine:
                 return
             if isinstance(base, VList):
                 idx = self.ev(tgt.slice, st)
+                if isinstance(idx, VOpt) and idx.sort == 'int':
+                    idx = self.need_int(idx, st, tgt)
                 if isinstance(idx, VInt):
                     i = z3.If(idx.t < 0, idx.t + base.length, idx.t)
                     self.oblige(st, z3.And(i >= 0, i < base.length), f'no-IndexError@L{tgt.lineno}', 'safety', tgt)
@@ -735,7 +740,7 @@ class Engine:
         if isinstance(v, (VSlice, VRec, VU)):
             return z3.BoolVal(True)
         if isinstance(v, VConst):
-            if isinstance(v.py, tuple) and v.py and v.py[0] in ('class', 'localdef', 'enumerate', 'zip', 'genresult'):
+            if isinstance(v.py, tuple) and v.py and v.py[0] in ('class', 'localdef', 'enumerate', 'zip', 'genresult', 'iterator'):
                 return z3.BoolVal(True)
             return z3.BoolVal(bool(v.py))
         if isinstance(v, VUnknown):
@@ -1100,6 +1105,8 @@ class Engine:
             self.oblige(st, z3.Not(base.isnone), f'no-TypeError-None@L{getattr(node, "lineno", 0)}', 'safety', node)
             return self.getitem(base.val, idx, st, node)
         if isinstance(base, VTuple):
+            if isinstance(idx, VOpt) and idx.sort == 'int':
+                idx = self.need_int(idx, st, node)
             if isinstance(idx, VInt):
                 k = z3.simplify(idx.t)
                 if z3.is_int_value(k):
